@@ -31,6 +31,69 @@ def mk(family, sexpr, rexpr, order, v, celltype, domains, optimize=True, tag="")
             "sexpr": sexpr, "rexpr": rexpr, "v": v, "celltype": celltype, "opts": {"optimize": optimize}}
 
 
+TWO = {
+    # two latches on one shared input / on shared set and reset signals; same and different cell types
+    "shared-input": ((B("<", V("x"), I(20)), B(">=", V("x"), I(80)), "sr"), (B(">=", V("x"), I(50)), B("<", V("x"), I(10)), "sr")),
+    "same-conditions": ((B("<", V("x"), I(20)), B(">=", V("x"), I(80)), "sr"), (B("<", V("x"), I(20)), B(">=", V("x"), I(80)), "sr")),
+    "opposite-priority": ((B("<", V("x"), I(80)), B(">=", V("x"), I(20)), "sr"), (B("<", V("x"), I(80)), B(">=", V("x"), I(20)), "rs")),
+    "raw-shared": ((V("s"), V("r"), "sr"), (V("r"), V("s"), "sr")),
+    "chained": ((B(">", V("s"), I(0)), B(">", V("t"), I(0)), "sr"), (B(">", ("read", "l1"), I(0)), B(">", V("t"), I(0)), "sr")),
+}
+
+
+def two_latch_cases(tier):
+    out = []
+    for tag, (l1, l2) in TWO.items():
+        for types in (("signal-L", "signal-K"), ("signal-L", "signal-L")):
+            body = []
+            for cell, (s_, r_, order), ct in (("l1", l1, types[0]), ("l2", l2, types[1])):
+                body += [("mem", cell, ct), ("latch", cell, I(1), s_, r_, order)]
+            body += [("decl", "Signal", "p1", B("*", ("read", "l1"), I(2))), ("decl", "Signal", "p2", B("*", ("read", "l2"), I(3)))]
+            used = set()
+            for (s_, r_, _) in (l1, l2):
+                gen.vars_in(s_, used)
+                gen.vars_in(r_, used)
+            inputs = [n for n in gen.INPUT_DECL if n in used]
+            dom = {"x": cmp_dom([10, 20, 50, 80]), "s": RAW_DOM, "r": RAW_DOM, "t": RAW_DOM}
+            out.append({"family": "two-latches", "tag": f"{tag}/{types[1]}", "order": l1[2] + l2[2], "stmts": gen.prog_with_inputs(inputs, body),
+                        "inputs": inputs, "domains": {i: dom[i] for i in inputs}, "outputs": ["p1", "p2"],
+                        "l1": list(l1), "l2": list(l2), "types": list(types), "opts": {"optimize": True}})
+    return out
+
+
+def run_two_latches(case):
+    stmts = gen.thaw(case["stmts"])
+    l1, l2 = gen.thaw(case["l1"]), gen.thaw(case["l2"])
+    inputs = case["inputs"]
+    decls = [gen.INPUT_DECL[i] for i in inputs]
+
+    def upd(on, S, R, order):
+        if S and R:
+            return order == "sr"
+        if S:
+            return True
+        if R:
+            return False
+        return on
+
+    def step(q, val):
+        q1, q2 = q
+        env = lang.Env(val)
+        lang.run(decls, env)
+        env.mem_read = lambda m: lang.Sig(None, 1 if q1 else 0)
+        n1 = upd(q1, lang.val(lang.ev(l1[0], env)) > 0, lang.val(lang.ev(l1[1], env)) > 0, l1[2])
+        env.mem_read = lambda m: lang.Sig(None, 1 if n1 else 0)
+        n2 = upd(q2, lang.val(lang.ev(l2[0], env)) > 0, lang.val(lang.ev(l2[1], env)) > 0, l2[2])
+        return (n1, n2)
+
+    def ref_step(q, val, event):
+        return [step(q or (False, False), val)]
+
+    def ref_expect(q, val):
+        return {"p1": lang.Sig(case["types"][0], 2 if q[0] else 0), "p2": lang.Sig(case["types"][1], 3 if q[1] else 0)}
+    return explore.run_bfs(stmts, inputs, case["domains"], case["opts"], case["outputs"], None, ref_step, ref_expect)
+
+
 class C05(core.Check):
     pid = "C05"
     level = "model_checking"
@@ -69,11 +132,14 @@ class C05(core.Check):
                             continue
                         out.append(mk("shared", B(cs, V("x"), I(lo)), B(cr, V("x"), I(hi)), order, v, "signal-L",
                                       {"x": cmp_dom([lo, hi]), "d": [0, 3, -4]}, tag=f"{cs}{lo}/{cr}{hi}/{vn}"))
+        out += two_latch_cases(tier)
         if tier == "thorough":
             out += [dict(c, opts={"optimize": False}) for c in list(out)]
         return out
 
     def run_case(self, case):
+        if case["family"] == "two-latches":
+            return run_two_latches(case)
         stmts = gen.thaw(case["stmts"])
         sexpr, rexpr, v = gen.thaw(case["sexpr"]), gen.thaw(case["rexpr"]), gen.thaw(case["v"])
         inputs = case["inputs"]
